@@ -65,7 +65,69 @@ def follow(root, xp):
     return cur
 
 
+def directed_cases(rng, n):
+    """(1) very deep trees (a chain far deeper than the interpreter's recursion limit): the non-recursive queries answer for
+    the deepest node first; (2) node classes that are not defined at module level (inside a function, inside a namespace
+    class): the xpath spells the class by the name the xpath language resolves (`__name__`)"""
+    import dataclasses
+    for _ in range(n):
+        depth = rng.choice([1200, 1500, 2500])
+        node = zoo.Leaf(v=1)
+        chain = [node]
+        for _k in range(depth):
+            node = zoo.Un(node)
+            chain.append(node)
+        root, deepest = node, chain[0]
+        fail = None
+        try:
+            t = Tree(root)
+            want = "/@root[0]Un" + "/@arg[0]Un" * (depth - 1) + "/@arg[0]Leaf"
+            got = t.get_xpath(deepest)                      # asked for the deepest node FIRST
+            if got != want:
+                fail = f"get_xpath of the node at depth {depth}: {got[:60]}… (length {len(got)}), expected length {len(want)}"
+            elif t.get_parent(deepest) is not chain[1] or not t.is_in_tree(deepest) or t.is_root(deepest) or not t.is_root(root):
+                fail = "get_parent / is_in_tree / is_root wrong on the deep chain"
+            elif [id(x) for x in t.get_ancestors(deepest)] != [id(x) for x in chain[1:]]:
+                fail = "get_ancestors wrong on the deep chain"
+            elif t.get_xpath(chain[depth // 2]) != "/@root[0]Un" + "/@arg[0]Un" * (depth - depth // 2):
+                fail = "get_xpath of a middle node wrong on the deep chain"
+        except Exception as e:  # noqa
+            fail = f"raised {type(e).__name__} on a chain of depth {depth}"
+        yield Case("directed:deep-chain", None, None, True, f"Un(Un(…Leaf)) of depth {depth}: get_xpath(deepest) first", oracle_fail=fail,
+                   sig="tree|directed|deep-chain")
+        del t, chain, root, deepest, node
+
+        def make():
+            @dataclasses.dataclass(frozen=True)
+            class C06LocLeaf(zoo.Expr):
+                v: int = 0
+
+            class NS:
+                @dataclasses.dataclass(frozen=True)
+                class C06NsUn(zoo.Expr):
+                    arg: zoo.Expr | None = None
+            return C06LocLeaf, NS.C06NsUn
+        LocLeaf, NsUn = make()
+        lf = LocLeaf(v=2)
+        mid = NsUn(lf)
+        top = zoo.Tup((zoo.Leaf(v=0), mid))
+        fail = None
+        try:
+            t = Tree(top)
+            xs = {"top": t.get_xpath(top), "mid": t.get_xpath(mid), "lf": t.get_xpath(lf)}
+            want = {"top": "/@root[0]Tup", "mid": "/@root[0]Tup/@items[1]C06NsUn", "lf": "/@root[0]Tup/@items[1]C06NsUn/@arg[0]C06LocLeaf"}
+            if xs != want:
+                fail = f"get_xpath spells {xs}, expected {want} (classes by __name__)"
+            elif t.get_first_ancestor_of_type(lf, NsUn) is not mid or t.get_depth(lf) != 2:
+                fail = "get_first_ancestor_of_type / get_depth wrong for locally defined classes"
+        except Exception as e:  # noqa
+            fail = f"raised {type(e).__name__}: {e}"[:160]
+        yield Case("directed:local-classes", None, None, True, "Tup((Leaf, NsUn(LocLeaf))) with classes defined in a function / a namespace class",
+                   oracle_fail=fail, sig="tree|directed|local-classes")
+
+
 def cases(rng: random.Random, tier: str):
+    yield from directed_cases(rng, 2 if tier == "quick" else 6)
     n_trees = 150 if tier == "quick" else 3000
     for _ in range(n_trees):
         g = zoo.Gen(rng, origins=rng.random() < 0.3, share=0.0)
